@@ -421,6 +421,10 @@ def case_lazy_vs_eager(ctx, spec):
                 x, y = x[mask], y[mask]
             if len(x) != len(y) or not np.allclose(x, y, rtol=1e-9, atol=1e-9 * cap, equal_nan=True):
                 i = int(np.argmax(~np.isclose(x, y, rtol=1e-9, atol=1e-9 * cap, equal_nan=True))) if len(x) == len(y) else -1
+                if {"algo=SelectMomentum", "algo=SelectN"} & set(gen.spec_labels(spec)):
+                    # a ranked selection breaks ties (equal returns at the start, flat prices) by the order of its candidates, and the
+                    # children come in a different order in the two constructions: the statement does not promise the same pick
+                    raise Discard("ranked selection: ties are broken by the order of the children, which the two constructions do not share")
                 raise Violation("%s.%s differs between string children and pre-constructed securities (row %d: %r vs %r)" % (name, nm, i, x[i] if i >= 0 else len(x), y[i] if i >= 0 else len(y)), signature="c19:lazy-vs-eager:" + nm)
     depth = max(len(p_) for p_, _ in gen.walk_nodes(spec["tree"]))
     return {"nontrivial": c10.n_trades(bt, b1) >= 2, "labels": gen.spec_labels(spec) + (["template_inspected_first"] if touch else []) + ["depth=%d" % depth]}
